@@ -32,6 +32,18 @@ D = {
  "C14-b": ("rechunk budget ignores reserved_mem", "reserved_mem > 0 and a copy chunk between (allowed-reserved)/5 and allowed/5"),
  "C15-a": ("index-notation read plans keyed by array name", "the same array passed twice with different index patterns"),
  "C15-b": ("list branch of apply_blockwise_key_func resolved from its first element", "a key function returning a list mixing blocks of two arrays, with fused predecessors"),
+ "C12-a": ("row-chunk guard moved from tsqr() into qr(): svd/svdvals lose it", "svd on a long axis whose last chunk has length 1 (9x4 with chunks (4,4), or the wide 4x9 case)"),
+ "C12-b": ("source rechunked to the target's chunks only when not a whole multiple", "lazy source, existing target whose smaller chunks evenly divide the source chunks, compute=False: returned array declares the old chunks"),
+ "C16-a": ("repeat() coerces repeats with operator.index", "repeats given as a 0-d cubed array (its plan is executed while the expression is built)"),
+ "C16-b": ("region writes to a path target create the target at build time", "a path/store target (not an open zarr.Array) together with a non-trivial region, even with compute=False"),
+ "C17-a": ("tsqr validates only the nominal (first) row chunk", "a row count that leaves a last chunk shorter than the column count, e.g. (10,3) with chunks (4,3)"),
+ "C17-b": ("stack takes the output chunks from the first input before unify_chunks", "differently chunked inputs where the first is not the finest on some axis (order dependent)"),
+ "C18-a": ("Spec.__eq__ compares a key tuple that omits reserved_mem", "two Specs identical except for reserved_mem"),
+ "C18-b": ("string sizes return before the negative check", "a negative size given as a string ('-100MB')"),
+ "C19-a": ("map_blocks takes the helper spec from the first positional argument only", "a non-cubed first argument followed by a cubed one, under an explicit Spec different from the default"),
+ "C19-b": ("rechunk budget ignores reserved_mem (same site as C14-b, found independently)", "memory-limited rechunk with non-zero reserved_mem: Specs with equal usable memory get different acceptance"),
+ "C20-a": ("Spec.__eq__ compares vars(), which includes the cached executor property", "exactly one of two equal Specs (the unpickled copy vs the local one) has been used in a compute"),
+ "C20-b": ("LazyZarrArray remembers (and pickles) that it was created", "the sender computed the array before shipping and has exited (its context directory is gone); the receiver must materialise that array"),
 }
 for sid, (breaks, needs) in D.items():
     d = os.path.join(ROOT, "seeded", sid)
